@@ -94,6 +94,9 @@ def run_c08(prop, tier, seed, replay):
         for info in rej[i][:5]:
             r = traces[i][info["l"] - 1]
             clause = info["clauses"].strip('"')
+            if r["op"] == "raised":
+                rep.violation(dict(op=r["fn"], clause=clause), "%s raised %s on %s" % (r["fn"], r["exc"], r["inp"]), dict(case=list(cases[i * 400 + info["l"] - 1]), record=r))
+                continue
             case = ("merge", half(r["e1"]), half(r["e2"]), r["P"]) if r["op"] == "merge" else ("reduce", [half(e) for e in r["inp"]], r["P"])
             rep.violation(dict(op=r["op"], clause=clause), "%s: %s -> %s" % (clause, {k: v for k, v in r.items() if k not in ("out", "again")}, r.get("out")),
                           dict(case=case, record=r))
